@@ -5,6 +5,11 @@ IDS = ["C%02d" % i for i in range(1, 21)]
 
 # id -> (engine, category, technique, text, note, design_ref)
 CHECKS = {
+ "C08": ("E3-crash-enumeration", "fault_enumeration",
+   "exhaustive kill-point enumeration (SIGKILL before the k-th mutating libc call, every k) of the real `copia bisync` under an LD_PRELOAD injector, plus every subset of unsynced files torn; recovery runs",
+   "Scenarios (quick: propagate, both-changed conflict, first run without archive; thorough: + create, propagate either way, delete either way, delete-vs-modify, several nested paths at once, 300 KiB file), each prepared by a real prior sync. The uninterrupted run is logged twice (determinism) giving N mutating calls; for EVERY k in 1..N+1 the process is killed before call k; at each k every subset (capped) of files written since their last fsync is additionally torn (empty / half). Each crash state: every non-staging path holds a complete pre-run or delivered version; the archive is the old one, absent, or the new one and then everything it records is on both sides with that hash. Trace-order invariant on the log: every staged file is fsynced after its last write and before its rename; the archive rename follows all data renames. Then up to 3 recovery runs must reach the uninterrupted run's trees without losing a version.",
+   "Crash model: metadata ops persist in issue order, data only up to the last fsync; single crash; tmpfs; the interposer sees libc-level calls (open/write/copy_file_range/fsync/rename/unlink/mkdir/...).",
+   "DESIGN.md §2.3, §3 C08"),
  "C02": ("E2-bisync-statespace", "model_checking",
    "explicit-state BFS over bisync histories; every bisync transition executes the real run_bisync on a materialised pre-state; transitions re-validated with the built CLI binary",
    "All histories over {write(side,path,content), delete(side,path), bisync} from every initial tree pair over the base path universe, 3 contents ordered by BLAKE3 (one empty), paths = base universe plus every path present on either side (so conflict-copies are edited and collided with), up to E runs and M edits between runs (quick: {f} E=3 M=2 and {f,d/g} E=2 M=1; thorough: {f} E=4 M=2 and {f,d/g} E=3 M=2). Oracle on every bisync transition: a pre-run version may vanish only if it is the last common version and the other side changed/deleted the path; otherwise it must exist on both sides at the path or a conflict-copy of it; no foreign bytes. The harness tracks the last common tree itself (never reads it from the archive).",
